@@ -154,13 +154,24 @@ class TextName(list):
         self.given = given
 
 
-def make_instance(shape, values, cls=None):
+def make_instance(shape, values, cls=None, fill_in_place=False):
     cls = cls or build_class(shape)
     m = cls()
     for f in shape:
         v = values.get(f['n'])
         if f['k'] in ('rep', 'map'):
-            setattr(m, f['n'], to_lib(f, v or []))
+            lv = to_lib(f, v or [])
+            if fill_in_place and lv:
+                # the application fills the container a fresh model hands out, element by element, instead of assigning one
+                cur = getattr(m, f['n'])
+                if f['k'] == 'rep':
+                    for x in lv:
+                        cur.append(x)
+                else:
+                    for kk, vv in lv.items():
+                        cur[kk] = vv
+            else:
+                setattr(m, f['n'], lv)
         else:
             setattr(m, f['n'], to_lib(f, v))
     return m
@@ -296,6 +307,14 @@ def check_case(shape, values, tier, deep=True):
         return 'encode-differs', viol
     if n != len(ref):
         bad('encoded-length', f'encoded_length() = {n}, actual size {len(ref)}')
+    if any(f['k'] in ('rep', 'map') and values.get(f['n']) for f in shape):
+        try:
+            w2 = bytes(make_instance(shape, values, cls, fill_in_place=True).encode())
+            if w2 != ref:
+                bad('encode-bytes|container-filled-in-place', f'a model whose list / map fields were filled element by element encodes to '
+                                                              f'{w2[:24].hex()}.. ({len(w2)} B), the declared shape gives {ref[:24].hex()}.. ({len(ref)} B)')
+        except Exception as e:  # noqa
+            bad(f'encode-raises:{type(e).__name__}|container-filled-in-place', f'{e!r}')
     # the documented buffer form: encode(wire, offset) into a caller-owned buffer that is not zero-filled
     try:
         buf = bytearray(b'\xa5' * (len(ref) + 7))
